@@ -145,9 +145,10 @@ func (g *Gen) solveOne(ob *Obligation, dir string, header string, timeoutMS int,
 		g.finish(ob, r, start)
 		return
 	}
-	if ob.Expect == "sat" {
+	if ob.Expect == "sat" || ob.Abstract {
 		// vacuity guard: only 'unsat' is a failure; quantified contexts rarely give 'sat', so do not
-		// spend the full budget (inconclusive is reported as such)
+		// spend the full budget (inconclusive is reported as such). Obligations of abstracted / partial
+		// functions that are decided only where possible get the short stage as well.
 		r.verdict = "unknown"
 		g.finish(ob, r, start)
 		return
